@@ -1,6 +1,7 @@
 package props
 
 import (
+	"sync"
 	"context"
 	"errors"
 	"fmt"
@@ -633,19 +634,34 @@ func c02Limits(a *ChildArgs) {
 	}
 	// the same boundary through every entry point that parses tokenizer output: a valid statement of exactly
 	// MaxTokens tokens (the end marker the tokenizer appends is not a token of the input)
-	for ti, tail := range []string{"", " -- end\n"} {
-		s := "SELECT 1" + strings.Repeat(",1", mt/2-1) + tail // exactly mt tokens
-		for _, ep := range TextEntryPoints() {
-			if strings.HasPrefix(ep.Name, "Scanner.") || strings.HasPrefix(ep.Name, "textsecurity.") || strings.HasPrefix(ep.Name, "linter.") || strings.Contains(ep.Name, "ParseMultiple") {
-				continue
-			}
-			a.Rec.Count("evaluations", 1)
-			a.Rec.Distinct("cases", fmt.Sprintf("tokens-at-limit-all/%s/%d", ep.Name, ti))
-			if got := ep.F(s); got == "err:E1007" {
-				a.Rec.Viol(fmt.Sprintf("C02/tokens/at-limit/%s/tail-%d/rejected", ep.Name, ti), "input exactly at the limit is not rejected for that reason",
-					fmt.Sprintf("%s: a statement of exactly %d tokens followed by %q rejected with E1007", ep.Name, mt, tail), map[string]interface{}{"entry": ep.Name, "tail": tail, "bytes": len(s)})
+	// (the calls are independent of each other: eight at a time, with the stack monitor's hooks off - a flat list
+	// is not its subject and its bookkeeping is not made for concurrent calls)
+	{
+		advHook, tokHook := parser.VerifAdvanceHook, tokenizer.VerifNextTokenHook
+		parser.VerifAdvanceHook, tokenizer.VerifNextTokenHook = nil, nil
+		defer func() { parser.VerifAdvanceHook, tokenizer.VerifNextTokenHook = advHook, tokHook }()
+		var wg sync.WaitGroup
+		slots := make(chan struct{}, 8)
+		for ti, tail := range []string{"", " -- end\n"} {
+			s := "SELECT 1" + strings.Repeat(",1", mt/2-1) + tail // exactly mt tokens
+			for _, ep := range TextEntryPoints() {
+				if strings.HasPrefix(ep.Name, "Scanner.") || strings.HasPrefix(ep.Name, "textsecurity.") || strings.HasPrefix(ep.Name, "linter.") || strings.Contains(ep.Name, "ParseMultiple") {
+					continue
+				}
+				a.Rec.Count("evaluations", 1)
+				a.Rec.Distinct("cases", fmt.Sprintf("tokens-at-limit-all/%s/%d", ep.Name, ti))
+				wg.Add(1)
+				slots <- struct{}{}
+				go func(ep TextEP, ti int, tail, s string) {
+					defer func() { <-slots; wg.Done() }()
+					if got := ep.F(s); got == "err:E1007" {
+						a.Rec.Viol(fmt.Sprintf("C02/tokens/at-limit/%s/tail-%d/rejected", ep.Name, ti), "input exactly at the limit is not rejected for that reason",
+							fmt.Sprintf("%s: a statement of exactly %d tokens followed by %q rejected with E1007", ep.Name, mt, tail), map[string]interface{}{"entry": ep.Name, "tail": tail, "bytes": len(s)})
+					}
+				}(ep, ti, tail, s)
 			}
 		}
+		wg.Wait()
 	}
 	// comments are not tokens: they must not count against the token limit
 	for _, cs := range []struct {
